@@ -33,6 +33,7 @@ func newTestConfig() *Config {
 	if err != nil {
 		panic(err)
 	}
+	c.SetValidity(2 * time.Second) // see VerifC06Cache
 	return c
 }
 
@@ -135,6 +136,15 @@ func VerifC06Cache() {
 	steps := []int64{0, 1800, 3500, 3700, 7200, 360000} // the model clock also advances one second per reading
 	dt := steps[vf.Choice("elapsed", len(steps))]
 	vf.AdvanceClock(dt)
+	if !vf.Symbolic() {
+		// native replay: the real clock cannot be advanced, so the same scenario is played
+		// with a validity of 2 s in place of 1 h and a proportional wait (at most 5 s)
+		wait := time.Duration(dt) * 2 * time.Second / 3600
+		if wait > 5*time.Second {
+			wait = 5 * time.Second
+		}
+		time.Sleep(wait)
+	}
 	stillValid := true
 	if t1 != nil && t1.Leaf != nil {
 		_, e := t1.Leaf.Verify(x509.VerifyOptions{DNSName: h1.name, Roots: c.roots})
